@@ -64,6 +64,11 @@ def main(tier):
     from props.C04 import TransitionTask
     for m in range(0, 9):
         run.add(TransitionTask(m, prop='C05'))
+    # ... and the source address a decoded message reports (and under which its identity is filed) is the one parsed from the
+    # identifier: the claim-handling contract of _call_decode_function (also part of C11)
+    from contracts.decoder_c import DecodeTask
+    for combined in (True, False):
+        run.add(DecodeTask('C05', combined, True))
     run.trust('pyvc encoding of Python int semantics (unbounded ints; >>, <<, & as floor div / mul / mod), cross-checked by ./check selftest',
               'z3 5.1 (python API); cvc5 1.0.3 / z3 4.8.12 CLI only on unknown',
               'contracts/headers.py + spec/specfun.py (extract/build layout taken from the property statement)')
